@@ -271,6 +271,8 @@ def build():
         if not os.path.exists(os.path.join(VERIF, "vf", "checks", prop.lower() + ".py")):
             continue
         tech, text, note, ref = CHECKS[prop]
+        if prop in WAVE3:
+            text = text + " Added during the seeded-change waves (same exhaustive style, see DESIGN.md 3.21): " + WAVE3[prop]
         checks.append(
             {
                 "property_id": prop,
@@ -321,6 +323,27 @@ def build():
 
 
 NOT_BUILT = {}
+WAVE3 = {
+    "C01": "vector damping on coupled systems with/without pre_eig; d0 with static_ic; force histories in integer/float32/list/Fortran/strided forms.",
+    "C02": "0 Hz anywhere / repeated in the frequency vector; non-contiguous rigid-body partitions; complex diagonal systems with rb/rf modes; complex mass; uncertainty factors below 1.",
+    "C03": "input-form axis (all integer dtypes incl. unsigned, lists, Fortran, strided; integer/list frequencies) x ic x rolloff.",
+    "C04": "form inference over all 4x4 0/1 and 3x3 ternary/complex matrices in dense and sparse containers; numeric dtype/container axis.",
+    "C05": "every narrow real dtype with values at its limits.",
+    "C06": "em_filt invariance of every returned quantity.",
+    "C07": "lower-triangular and sign-definite singular structures; SSModel conversion chains c2d->d2c->c2d->d2c with attribute checks.",
+    "C08": "reused caller-side force buffer histories; non-symmetric coupled kinds; integer-typed F0.",
+    "C09": "every (frequency count, pool size 1..16) pair under three canonical model schedules; all peak methods incl. a summing callable.",
+    "C10": "input-form axis over findap (both branches), rainflow, sigcount, fdepsd; in-place mutation histories of one array object for fdepsd.",
+    "C11": "per-matrix layouts and number formats in one file; container kind per read mode; ASCII lines beyond 80 columns; next_db_info/goto_next from every file position.",
+    "C13": "id containers of every integer dtype; SET lines wider than 72 columns.",
+    "C14": "every scalar-point block placement x q-set grid; integer-typed location queries.",
+    "C15": "precomputed apparent masses in all six memory layouts used twice; lumped mass as a vector.",
+    "C16": "integer-typed cases in extrema histories; Fortran-ordered matrices and input immutability in apply_uf histories; permuted row-label sets.",
+    "C17": "force histories in integer/list/Fortran/strided forms.",
+    "C18": "locate helpers over every integer dtype and mixed dtype pairs.",
+    "C19": "input-form axis over area/interp/rescale/resample/fixtime.",
+    "C20": "integer-dtype forms of n and r.",
+}
 
 
 def main():
